@@ -1326,11 +1326,16 @@ Proof.
 Qed.
 
 (* the RIB now (R) is the RIB the neighbour has caught up with (L) plus the operations
-   whose changes are still queued, in order *)
-Inductive Chain (fl : list N) : rib -> list change -> rib -> Prop :=
+   whose changes are still queued, in order; a queued refresh walk is a snapshot of the RIB
+   at its place in the queue *)
+Definition walk_ok (fl : list N) (L : rib) (cs : list change) : Prop :=
+  forall c, In c (refresh_changes max cs) -> emit fl L c L.
+
+Inductive Chain (fl : list N) : rib -> list event -> rib -> Prop :=
 | ch_nil : forall R, Chain fl R [] R
 | ch_silent : forall L L1 ch R, silent L L1 -> Chain fl L1 ch R -> Chain fl L ch R
-| ch_emit : forall L c L1 ch R, emit fl L c L1 -> Chain fl L1 ch R -> Chain fl L (c :: ch) R.
+| ch_emit : forall L c L1 ch R, emit fl L c L1 -> Chain fl L1 ch R -> Chain fl L (EvChange c :: ch) R
+| ch_walk : forall L cs ch R, walk_ok fl L cs -> Chain fl L ch R -> Chain fl L (EvWalk cs :: ch) R.
 
 Lemma chain_mono : forall fl fl' L ch R, (forall y, In y fl -> In y fl') ->
   Chain fl L ch R -> Chain fl' L ch R.
@@ -1339,15 +1344,27 @@ Proof.
   - constructor.
   - eapply ch_silent; eauto.
   - eapply ch_emit; eauto. eapply emit_mono; eauto.
+  - eapply ch_walk; eauto. intros c Hc. eapply emit_mono; eauto.
 Qed.
 
 Lemma chain_snoc_emit : forall fl L ch R c R',
-  Chain fl L ch R -> emit fl R c R' -> Chain fl L (ch ++ [c]) R'.
+  Chain fl L ch R -> emit fl R c R' -> Chain fl L (ch ++ [EvChange c]) R'.
 Proof.
   intros fl L ch R c R' H He. induction H; cbn [app].
   - eapply ch_emit; eauto. constructor.
   - eapply ch_silent; eauto.
   - eapply ch_emit; eauto.
+  - eapply ch_walk; eauto.
+Qed.
+
+Lemma chain_snoc_walk : forall fl L ch R cs,
+  Chain fl L ch R -> walk_ok fl R cs -> Chain fl L (ch ++ [EvWalk cs]) R.
+Proof.
+  intros fl L ch R cs H He. induction H; cbn [app].
+  - eapply ch_walk; eauto. constructor.
+  - eapply ch_silent; eauto.
+  - eapply ch_emit; eauto.
+  - eapply ch_walk; eauto.
 Qed.
 
 Lemma chain_snoc_silent : forall fl L ch R R', Chain fl L ch R -> silent R R' -> Chain fl L ch R'.
@@ -1356,6 +1373,7 @@ Proof.
   - eapply ch_silent; eauto. constructor.
   - eapply ch_silent; eauto.
   - eapply ch_emit; eauto.
+  - eapply ch_walk; eauto.
 Qed.
 
 Lemma chain_nil_transfer : forall fl L R em p base,
@@ -1365,17 +1383,31 @@ Proof.
   intros fl L R em p base H. remember [] as ch eqn:Hch. induction H; intros Hwf He Hp; auto.
   - destruct (silent_ok fl L L1 em p base Hwf H) as [H1 [H2 H3]]. apply IHChain; auto.
   - discriminate.
+  - discriminate.
 Qed.
 
 Lemma chain_cons_inv : forall fl L c ch R em p base,
-  Chain fl L (c :: ch) R -> wf L -> emap_ok L em -> pend_ok fl L p base ->
+  Chain fl L (EvChange c :: ch) R -> wf L -> emap_ok L em -> pend_ok fl L p base ->
   exists L1 L2, wf L1 /\ emap_ok L1 em /\ pend_ok fl L1 p base /\ emit fl L1 c L2 /\ Chain fl L2 ch R.
 Proof.
-  intros fl L c ch R em p base H. remember (c :: ch) as ch' eqn:Hch. revert c ch Hch.
+  intros fl L c ch R em p base H. remember (EvChange c :: ch) as ch' eqn:Hch. revert c ch Hch.
   induction H; intros c0 ch0 Hch Hwf He Hp.
   - discriminate.
   - destruct (silent_ok fl L L1 em p base Hwf H) as [H1 [H2 H3]]. eapply IHChain; eauto.
   - inversion Hch; subst. exists L, L1. split; [|split; [|split; [|split]]]; auto.
+  - discriminate.
+Qed.
+
+Lemma chain_walk_inv : forall fl L cs ch R em p base,
+  Chain fl L (EvWalk cs :: ch) R -> wf L -> emap_ok L em -> pend_ok fl L p base ->
+  exists L1, wf L1 /\ emap_ok L1 em /\ pend_ok fl L1 p base /\ walk_ok fl L1 cs /\ Chain fl L1 ch R.
+Proof.
+  intros fl L cs ch R em p base H. remember (EvWalk cs :: ch) as ch' eqn:Hch. revert cs ch Hch.
+  induction H; intros cs0 ch0 Hch Hwf He Hp.
+  - discriminate.
+  - destruct (silent_ok fl L L1 em p base Hwf H) as [H1 [H2 H3]]. eapply IHChain; eauto.
+  - discriminate.
+  - inversion Hch; subst. exists L. split; [|split; [|split; [|split]]]; auto.
 Qed.
 
 (* per-prefix: nothing queued for a prefix => the neighbour has caught up on it *)
@@ -1402,7 +1434,8 @@ Proof.
 Qed.
 
 Lemma chain_fresh_other : forall fl m L ch R k,
-  Chain fl L ch R -> wf L -> (forall c, In c ch -> c_net c <> fst k) -> FRESH m R k = FRESH m L k.
+  Chain fl L ch R -> wf L -> (forall c, In (EvChange c) ch -> c_net c <> fst k) ->
+  FRESH m R k = FRESH m L k.
 Proof.
   intros fl m L ch R k H. induction H; intros Hwf Hno; auto.
   - rewrite IHChain; auto.
@@ -1412,6 +1445,7 @@ Proof.
     + apply (emit_other_net fl m L c L1 k H). apply Hno; left; auto.
     + eapply emit_wf; eauto.
     + intros c' Hc'. apply Hno; right; auto.
+  - apply IHChain; auto. intros c' Hc'. apply Hno; right; auto.
 Qed.
 
 (* ------------------------------------------------------------ the initial dump *)
@@ -1614,7 +1648,7 @@ End Dump.
 Variable polv : N -> bool -> N -> path -> option E.
 Variable pv0 : N.
 Hypothesis Hpol : polv pv0 = pol.
-Notation STEP := (step E ByNet false max aptx vis polv).
+Notation STEP := (step E ByNet false false max aptx vis polv).
 
 Definition basef (n : nbr E) : key -> option E :=
   fun k => kfind k (mirror_reach E (n_buf n) (n_mirror n)).
@@ -1711,10 +1745,10 @@ Proof.
     apply IH; auto. intros; apply Hall; right; auto.
 Qed.
 
-Lemma refresh_changes_emit : forall fl R c, wf R -> marks_le fl R ->
-  In c (refresh_changes max (snapshot false max R)) -> emit fl R c R.
+Lemma refresh_changes_emit : forall fl R, wf R -> marks_le fl R ->
+  walk_ok fl R (snapshot false max R).
 Proof.
-  intros fl R c Hwf Hml Hc. rewrite snapshot_unlimited in Hc. unfold refresh_changes in Hc.
+  intros fl R Hwf Hml c Hc. rewrite snapshot_unlimited in Hc. unfold refresh_changes in Hc.
   assert (Hsnap : forall c0, In c0 (filter_map (fun d => match d_paths d with [] => None | _ => Some (snapc d) end) R) ->
                             exists d, In d R /\ c0 = snapc d).
   { intros c0 H0. apply In_filter_map in H0 as [d [Hd Hs]]. exists d. split; auto.
@@ -1761,7 +1795,7 @@ Qed.
 
 Lemma step_inv : forall s l, Inv s -> ok_label E s l -> Inv (STEP s l).
 Proof.
-  intros s l [Hwf [Hml [Hn Hpv]]] [Htr Hnr].
+  intros s l [Hwf [Hml [Hn Hpv]]] Htr. unfold ok_label in Htr.
   destruct l as [net bc ac repl paths | net | net emit_ | src b | src rs | | | | | | v].
   - (* RibSet *)
     cbn [step]. destruct Htr as [Hts Hmk].
@@ -1809,7 +1843,7 @@ Proof.
       rewrite G5. cbn [s_pv]. exact Hpv.
   - (* Deliver *)
     destruct s as [R fl pvv n]. cbn [s_rib s_llgr s_nbr s_pv step] in *. subst pvv. rewrite Hpol.
-    destruct (n_chan n) as [|c rest] eqn:Hch.
+    destruct (n_chan n) as [|[c|cs] rest] eqn:Hch.
     + split; [|split; [|split]]; auto.
     + unfold with_nbr. split; [|split; [|split]]; cbn [s_rib s_llgr s_nbr s_pv n_reg]; auto.
       intros Hr. destruct (Hn Hr) as [L [H1 [H2 [H3 [H4 H5]]]]]. rewrite Hch in H2.
@@ -1818,6 +1852,15 @@ Proof.
       destruct (deliver_ok fl L1 c L2 (n_emap n) (n_ptx n) (basef n) G1 G4 G2 G3 H5)
         as [p' [Hs [Hw2 [He2 [Hp2 Hc2]]]]].
       exists L2. cbn [n_chan n_emap n_ptx]. rewrite Hs. cbn [sink_ptx].
+      split; [|split; [|split; [|split]]]; auto.
+    + (* a queued refresh walk *)
+      unfold with_nbr. split; [|split; [|split]]; cbn [s_rib s_llgr s_nbr s_pv n_reg]; auto.
+      intros Hr. destruct (Hn Hr) as [L [H1 [H2 [H3 [H4 H5]]]]]. rewrite Hch in H2.
+      destruct (chain_walk_inv fl L cs rest R (n_emap n) (n_ptx n) (basef n) H2 H1 H3 H4)
+        as [L1 [G1 [G2 [G3 [G4 G5]]]]].
+      destruct (refresh_ok fl L1 (refresh_changes max cs) (n_emap n) (n_ptx n) (basef n) G1 G4 G2 G3 H5)
+        as [p' [Hs [He2 [Hp2 Hc2]]]].
+      exists L1. cbn [n_chan n_emap n_ptx]. rewrite Hs. cbn [sink_ptx].
       split; [|split; [|split; [|split]]]; auto.
   - (* Flush *)
     destruct s as [R fl pvv n]. cbn [s_rib s_llgr s_nbr s_pv step] in *.
@@ -1834,20 +1877,13 @@ Proof.
     exists R. cbn [n_chan n_emap n_ptx]. split; [|split; [|split; [|split]]]; auto.
     + constructor.
     + apply coherent_empty.
-  - (* Refresh *)
-    destruct s as [R fl pvv n]. cbn [s_rib s_llgr s_nbr s_pv step] in *. subst pvv. rewrite Hpol.
+  - (* Refresh: the walk is queued behind the changes *)
+    destruct s as [R fl pvv n]. cbn [s_rib s_llgr s_nbr s_pv step] in *.
     destruct (n_reg n) eqn:Hr; [|split; [|split; [|split]]; cbn [s_rib s_llgr s_nbr s_pv]; auto; congruence].
     unfold with_nbr. split; [|split; [|split]]; cbn [s_rib s_llgr s_nbr s_pv n_reg]; auto.
     intros _. destruct (Hn eq_refl) as [L [H1 [H2 [H3 [H4 H5]]]]].
-    assert (Hch : n_chan n = []).
-    { destruct (n_chan n) eqn:Hc; auto. exfalso. apply Hnr. split; auto. cbn [s_nbr]. rewrite Hc. discriminate. }
-    rewrite Hch in H2.
-    destruct (chain_nil_transfer fl L R (n_emap n) (n_ptx n) (basef n) H2 H1 H3 H4) as [G1 [G2 G3]].
-    destruct (refresh_ok fl R (refresh_changes max (snapshot false max R)) (n_emap n) (n_ptx n) (basef n) Hwf
-                         (fun c Hc => refresh_changes_emit fl R c Hwf (marks_live_le fl R Hml) Hc)
-                         G2 G3 H5) as [p' [Hs [He2 [Hp2 Hc2]]]].
-    exists R. cbn [n_chan n_emap n_ptx]. rewrite Hch, Hs. cbn [sink_ptx].
-    split; [|split; [|split; [|split]]]; auto. constructor.
+    exists L. cbn [n_chan n_emap n_ptx n_buf n_mirror]. split; [|split; [|split; [|split]]]; auto.
+    apply chain_snoc_walk; auto. apply refresh_changes_emit; auto. apply marks_live_le; auto.
   - (* Unregister *)
     destruct s as [R fl pvv n]. cbn [s_rib s_llgr s_nbr s_pv step] in *.
     unfold with_nbr. split; [|split; [|split]]; cbn [s_rib s_llgr s_nbr s_pv nbr0 n_reg]; auto. discriminate.
@@ -1855,8 +1891,8 @@ Proof.
     destruct Htr.
 Qed.
 
-Notation RUN := (run_from E ByNet false max aptx vis polv).
-Notation OKRUN := (ok_run E ByNet false max aptx vis polv).
+Notation RUN := (run_from E ByNet false false max aptx vis polv).
+Notation OKRUN := (ok_run E ByNet false false max aptx vis polv).
 Notation FRESHD := (fresh E ByNet false max aptx vis polv).
 
 Lemma inv_state0 : pv0 = 0 -> Inv (state0 E).
@@ -1918,11 +1954,15 @@ Lemma no_lost : forall s, Inv s -> established E s -> forall k e,
 Proof.
   intros s Hinv Hest k e Hv Hf. rewrite (fresh_closed s Hinv) in Hf.
   destruct Hinv as [Hwf [Hml [Hn _]]]. destruct (Hn Hest) as [L [H1 [H2 [H3 [[m [Hb H4]] H5]]]]].
-  destruct (existsb (fun c => c_net c =? fst k) (n_chan (s_nbr s))) eqn:Hex.
-  - right. apply existsb_exists in Hex as [c [Hc Hk]]. apply N.eqb_eq in Hk. exists c; auto.
-  - left. assert (Hno : forall c, In c (n_chan (s_nbr s)) -> c_net c <> fst k).
-    { intros c Hc He. assert (existsb (fun c => c_net c =? fst k) (n_chan (s_nbr s)) = true).
-      { apply existsb_exists. exists c; split; auto. now apply N.eqb_eq. }
+  destruct (existsb (fun ev => match ev with EvChange c => c_net c =? fst k | EvWalk _ => false end)
+                    (n_chan (s_nbr s))) eqn:Hex.
+  - right. apply existsb_exists in Hex as [[c|cs] [Hc Hk]]; [|discriminate].
+    apply N.eqb_eq in Hk. exists c; auto.
+  - left. assert (Hno : forall c, In (EvChange c) (n_chan (s_nbr s)) -> c_net c <> fst k).
+    { intros c Hc He.
+      assert (existsb (fun ev => match ev with EvChange c => c_net c =? fst k | EvWalk _ => false end)
+                      (n_chan (s_nbr s)) = true).
+      { apply existsb_exists. exists (EvChange c); split; auto. now apply N.eqb_eq. }
       congruence. }
     pose proof (chain_fresh_other _ m L _ _ k H2 H1 Hno) as Hfr.
     rewrite (fresh_none_indep _ m _ _ Hf) in Hfr.
@@ -1952,52 +1992,45 @@ Theorem C01_export_inv_preserved :
   forall (E : Type) (max : N) (vis : path -> bool) (pol : N -> bool -> N -> path -> option E)
          (ls : list label),
     pol_marks_after_accept E (pol 0) ->
-    ok_run E ByNet false max (MAXOK max) vis pol (state0 E) ls ->
-    Inv E max vis (pol 0) 0 (run E ByNet false max (MAXOK max) vis pol ls).
+    ok_run E ByNet false false max (MAXOK max) vis pol (state0 E) ls ->
+    Inv E max vis (pol 0) 0 (run E ByNet false false max (MAXOK max) vis pol ls).
 Proof. intros. unfold run. apply (run_inv E max vis (pol 0) H pol 0 eq_refl); auto. apply inv_state0; auto. Qed.
 
 Lemma ok_of_truthful :
   forall (E : Type) (max : N) (vis : path -> bool) (pol : N -> bool -> N -> path -> option E)
          (ls : list label) s0,
-    truthful_run E ByNet false max (MAXOK max) vis pol s0 ls ->
-    ~ Known_C01_refresh_race E ByNet false max (MAXOK max) vis pol s0 ls ->
-    ok_run E ByNet false max (MAXOK max) vis pol s0 ls.
+    truthful_run E ByNet false false max (MAXOK max) vis pol s0 ls ->
+    ok_run E ByNet false false max (MAXOK max) vis pol s0 ls.
 Proof.
-  intros E max vis pol. induction ls as [|l ls IH]; intros s0 Ht Hr; cbn [ok_run]; auto.
-  cbn [truthful_run Known_C01_refresh_race] in *.
-  destruct Ht as [Ht1 Ht2]. split.
-  - split; [auto|tauto].
-  - apply IH; tauto.
+  intros E max vis pol. induction ls as [|l ls IH]; intros s0 Ht; cbn [ok_run]; auto.
 Qed.
 
-Theorem C01_quiescent_view_eq_fresh_outside_known :
+Theorem C01_quiescent_view_eq_fresh :
   forall (E : Type) (max : N) (vis : path -> bool) (pol : N -> bool -> N -> path -> option E)
          (ls : list label),
     pol_marks_after_accept E (pol 0) ->
-    truthful_run E ByNet false max (MAXOK max) vis pol (state0 E) ls ->
-    ~ Known_C01_refresh_race E ByNet false max (MAXOK max) vis pol (state0 E) ls ->
-    let s := run E ByNet false max (MAXOK max) vis pol ls in
+    truthful_run E ByNet false false max (MAXOK max) vis pol (state0 E) ls ->
+    let s := run E ByNet false false max (MAXOK max) vis pol ls in
     established E s -> quiescent E s ->
     same_routes E (view E s) (fresh E ByNet false max (MAXOK max) vis pol s).
 Proof.
-  intros E max vis pol ls Hpa Ht Hr s He Hq. apply (quiescent_eq E max vis (pol 0) Hpa pol 0 eq_refl); auto.
-  apply C01_export_inv_preserved; auto. apply ok_of_truthful; auto.
+  intros E max vis pol ls Hpa Ht s He Hq. apply (quiescent_eq E max vis (pol 0) Hpa pol 0 eq_refl); auto.
+  apply C01_export_inv_preserved; auto.
 Qed.
 
-Theorem C01_no_lost_withdrawal_outside_known :
+Theorem C01_no_lost_withdrawal :
   forall (E : Type) (max : N) (vis : path -> bool) (pol : N -> bool -> N -> path -> option E)
          (ls : list label),
     pol_marks_after_accept E (pol 0) ->
-    truthful_run E ByNet false max (MAXOK max) vis pol (state0 E) ls ->
-    ~ Known_C01_refresh_race E ByNet false max (MAXOK max) vis pol (state0 E) ls ->
-    let s := run E ByNet false max (MAXOK max) vis pol ls in
+    truthful_run E ByNet false false max (MAXOK max) vis pol (state0 E) ls ->
+    let s := run E ByNet false false max (MAXOK max) vis pol ls in
     established E s ->
     forall k e, kfind k (view E s) = Some e ->
                 kfind k (fresh E ByNet false max (MAXOK max) vis pol s) = None ->
                 withdrawal_pending E s k \/ change_undelivered E s k.
 Proof.
-  intros E max vis pol ls Hpa Ht Hr s He k e Hv Hf. eapply (no_lost E max vis (pol 0) Hpa pol 0 eq_refl); eauto.
-  apply C01_export_inv_preserved; auto. apply ok_of_truthful; auto.
+  intros E max vis pol ls Hpa Ht s He k e Hv Hf. eapply (no_lost E max vis (pol 0) Hpa pol 0 eq_refl); eauto.
+  apply C01_export_inv_preserved; auto.
 Qed.
 
 (* the model's Register dump is the closed form of the export rules, every route carrying
@@ -2006,8 +2039,8 @@ Theorem C01_fresh_is_export_rules :
   forall (E : Type) (max : N) (vis : path -> bool) (pol : N -> bool -> N -> path -> option E)
          (ls : list label),
     pol_marks_after_accept E (pol 0) ->
-    ok_run E ByNet false max (MAXOK max) vis pol (state0 E) ls ->
-    let s := run E ByNet false max (MAXOK max) vis pol ls in
+    ok_run E ByNet false false max (MAXOK max) vis pol (state0 E) ls ->
+    let s := run E ByNet false false max (MAXOK max) vis pol ls in
     forall k, kfind k (fresh E ByNet false max (MAXOK max) vis pol s)
               = fresh_at E max vis (pol 0) (live (s_llgr s)) (s_rib s) k.
 Proof.
@@ -2021,12 +2054,12 @@ Definition P (pid src tok : N) : path := {| p_pid := pid; p_src := src; p_tok :=
 Definition PM (pid src tok : N) : path := {| p_pid := pid; p_src := src; p_tok := tok; p_mark := true |}.
 
 Definition crun (g : cfg) (ls : list label) : state CE :=
-  run CE (g_keying g) (g_limited g) (g_max g) (g_aptx g) (cvis g) (cpolv g) ls.
+  run CE (g_keying g) (g_limited g) (g_inline g) (g_max g) (g_aptx g) (cvis g) (cpolv g) ls.
 Definition cfresh (g : cfg) (s : state CE) : list (key * CE) :=
   fresh CE (g_keying g) (g_limited g) (g_max g) (g_aptx g) (cvis g) (cpolv g) s.
 
 Definition G (k : keying) (lim : bool) (max : N) (hidden : list N) : cfg :=
-  {| g_keying := k; g_limited := lim; g_max := max; g_aptx := negb (max =? 1);
+  {| g_keying := k; g_limited := lim; g_inline := false; g_max := max; g_aptx := negb (max =? 1);
      g_hidden := hidden; g_rej := [] |}.
 
 Lemma cpol_marks_after_accept : forall g, pol_marks_after_accept CE (cpolv g 0).
@@ -2104,7 +2137,7 @@ Definition w_llgr_new : list label :=
 Example C01_llgr_fixed :
   let g := G ByNet false 1 [] in
   let s := crun g w_llgr_new in
-  truthful_run CE ByNet false 1 false (cvis g) (cpolv g) (state0 CE) w_llgr_new /\
+  truthful_run CE ByNet false false 1 false (cvis g) (cpolv g) (state0 CE) w_llgr_new /\
   established CE s /\ quiescent CE s /\
   view CE s = [((0, 0), (2, 2, 1))] /\ cfresh g s = [((0, 0), (2, 2, 1))].
 Proof.
@@ -2123,29 +2156,37 @@ Proof.
             repeat (destruct Hq as [Hq|Hq]; [subst q|]); try contradiction; reflexivity).
 Qed.
 
-(* (d) open finding C01-refresh-race, on the fixed code: the refresh runs while the removal
-   of prefix 2 (dest_id 0) is queued and dest_id 0 already names prefix 1 *)
+(* (d) the code before the fix of C01-refresh-race (do_route_refresh walked the RIB at once,
+   ahead of the queued changes): the refresh runs while the removal of prefix 2 (dest_id 0) is
+   queued and dest_id 0 already names prefix 1, which the neighbour may not see *)
 Definition w_race : list label :=
   [Register; RibSet 2 true true None [P 1 0 0]; Deliver; RibFree 2 true;
    RibSet 1 true true None [P 1 1 2]; Flush; Refresh; Deliver; Deliver; Flush].
 
-Lemma C01_no_lost_withdrawal_refuted_refresh_race :
-  let g := G ByNet false 2 [1] in
+Definition GI (max : N) (hidden : list N) : cfg :=
+  {| g_keying := ByNet; g_limited := false; g_inline := true; g_max := max;
+     g_aptx := negb (max =? 1); g_hidden := hidden; g_rej := [] |}.
+
+Lemma C01_no_lost_withdrawal_refuted_inline_refresh :
+  let g := GI 2 [1] in
   let s := crun g w_race in
-  Known_C01_refresh_race CE ByNet false 2 true (cvis g) (cpolv g) (state0 CE) w_race /\
   established CE s /\ quiescent CE s /\
   exists k e, kfind k (view CE s) = Some e /\ kfind k (cfresh g s) = None /\
               ~ withdrawal_pending CE s k /\ ~ change_undelivered CE s k.
 Proof.
-  cbv zeta. split.
-  - cbn [Known_C01_refresh_race w_race]. do 6 right. left. split; [reflexivity|].
-    vm_compute. discriminate.
-  - split; [vm_compute; reflexivity|]. split; [vm_compute; repeat split; reflexivity|].
-    exists (2, 1), (0, 0, 0). split; [vm_compute; reflexivity|]. split; [vm_compute; reflexivity|].
-    split.
-    + vm_compute. tauto.
-    + intros [c [Hc _]]. vm_compute in Hc. exact Hc.
+  cbv zeta. split; [vm_compute; reflexivity|]. split; [vm_compute; repeat split; reflexivity|].
+  exists (2, 1), (0, 0, 0). split; [vm_compute; reflexivity|]. split; [vm_compute; reflexivity|].
+  split.
+  - vm_compute. tauto.
+  - intros [c [Hc _]]. vm_compute in Hc. exact Hc.
 Qed.
+
+(* the same history on the fixed code (one more Deliver: the queued walk): prefix 2 is withdrawn *)
+Example C01_refresh_race_fixed :
+  let g := G ByNet false 2 [1] in
+  let s := crun g (w_race ++ [Deliver; Flush]) in
+  established CE s /\ quiescent CE s /\ view CE s = [] /\ cfresh g s = [].
+Proof. cbv zeta. repeat split; vm_compute; reflexivity. Qed.
 
 (* ------------------------------------------------------------ non-vacuity *)
 (* A history that satisfies every hypothesis of the theorems (truthful changes, refresh only
@@ -2156,20 +2197,19 @@ Definition w_ok : list label :=
    RibSet 0 true true None [P 1 0 2]; RibSet 0 false true None [P 1 0 2; P 2 1 3];
    RibSet 0 true true (Some 1) [P 1 0 1; P 2 1 3];
    Deliver; Deliver; Deliver; Deliver; Refresh;
-   LlgrMark 1 [(0, false, true, Some 2, [P 1 0 1; PM 2 1 3])]; Deliver; Flush].
+   LlgrMark 1 [(0, false, true, Some 2, [P 1 0 1; PM 2 1 3])]; Deliver; Deliver; Flush].
 
 Example C01_hypotheses_satisfiable :
   let max := 2 in
   let vis := cvis (G ByNet false max []) in
   let pol := cpolv (G ByNet false max []) in
   pol_marks_after_accept CE (pol 0) /\
-  truthful_run CE ByNet false max (MAXOK max) vis pol (state0 CE) w_ok /\
-  ~ Known_C01_refresh_race CE ByNet false max (MAXOK max) vis pol (state0 CE) w_ok /\
-  let s := run CE ByNet false max (MAXOK max) vis pol w_ok in
+  truthful_run CE ByNet false false max (MAXOK max) vis pol (state0 CE) w_ok /\
+  let s := run CE ByNet false false max (MAXOK max) vis pol w_ok in
   established CE s /\ quiescent CE s /\
   view CE s = [((0, 1), (0, 1, 0)); ((0, 2), (1, 3, 1))].
 Proof.
-  cbv zeta. split; [apply cpol_marks_after_accept|]. split; [|split; [|split; [|split]]].
+  cbv zeta. split; [apply cpol_marks_after_accept|]. split; [|split; [|split]].
   - cbn [truthful_run w_ok]. repeat split; try discriminate; try exact I.
     all: vm_compute.
     all: try (repeat constructor; cbn; intuition discriminate).
@@ -2182,11 +2222,107 @@ Proof.
     all: try (intros q Hq Hm; repeat (destruct Hq as [Hq|Hq]; [subst q|]); try contradiction; try discriminate; reflexivity).
     all: try (intros d q Hd Hq; repeat (destruct Hd as [Hd|Hd]; [subst d|]); try contradiction;
               repeat (destruct Hq as [Hq|Hq]; [subst q|]); try contradiction; reflexivity).
-  - cbn [Known_C01_refresh_race w_ok]. intros H.
-    repeat (destruct H as [[H _]|H]; [discriminate|]).
-    destruct H as [[_ H]|H]; [apply H; vm_compute; reflexivity|].
-    repeat (destruct H as [[H _]|H]; [discriminate|]). exact H.
   - vm_compute; reflexivity.
   - vm_compute; repeat split; reflexivity.
   - vm_compute; reflexivity.
+Qed.
+
+(* ------------------------------------------------------------ End-of-RIB *)
+(* When an End-of-RIB is due: one is buffered with the initial dump of a session (it leaves
+   with the first flush, right behind the dump); one is scheduled when a queued route-refresh
+   walk has been applied (it leaves last in the next flush); a flush or the end of the session
+   clears both; nothing else touches them. *)
+Section Eor.
+Variable E : Type.
+Variable max : N.
+Variable vis : path -> bool.
+Variable polv : N -> bool -> N -> path -> option E.
+Notation STEP := (step E ByNet false false max (MAXOK max) vis polv).
+
+Definition walk_at_head (n : nbr E) : bool :=
+  match n_chan n with EvWalk _ :: _ => true | _ => false end.
+
+Lemma push_flags : forall c (n : nbr E),
+  n_beor (push E c n) = n_beor n /\ n_eor (push E c n) = n_eor n.
+Proof. intros c n. unfold push. destruct (n_reg n); auto. Qed.
+
+Lemma rib_set_flags : forall (s : state E) x,
+  n_beor (s_nbr (rib_set E s x)) = n_beor (s_nbr s) /\ n_eor (s_nbr (rib_set E s x)) = n_eor (s_nbr s).
+Proof.
+  intros s [[[[net bc] ac] repl] paths]. unfold rib_set.
+  destruct (rset net paths (s_rib s)) as [r' i]. cbn [s_nbr]. apply push_flags.
+Qed.
+
+Lemma rib_sets_flags : forall rs (s : state E),
+  n_beor (s_nbr (fold_left (rib_set E) rs s)) = n_beor (s_nbr s) /\
+  n_eor (s_nbr (fold_left (rib_set E) rs s)) = n_eor (s_nbr s).
+Proof.
+  induction rs as [|x rs IH]; intros s; cbn [fold_left]; auto.
+  destruct (IH (rib_set E s x)) as [H1 H2]. destruct (rib_set_flags s x) as [G1 G2].
+  rewrite H1, H2, G1, G2. auto.
+Qed.
+
+Theorem C01_eor_emission : forall (s : state E) (l : label),
+  let n := s_nbr s in
+  let n' := s_nbr (STEP s l) in
+  match l with
+  | Register => n_beor n' = true /\ n_eor n' = false /\
+                eor_positions n' = [N.of_nat (length (n_buf n'))]
+  | Flush | Unregister => n_beor n' = false /\ n_eor n' = false /\ eor_positions n' = []
+  | Deliver => n_beor n' = n_beor n /\ n_eor n' = (n_eor n || walk_at_head n)
+  | _ => n_beor n' = n_beor n /\ n_eor n' = n_eor n
+  end.
+Proof.
+  intros s l. cbv zeta.
+  destruct l as [net bc ac repl paths | net | net emit_ | src b | src rs | | | | | | v]; cbn [step].
+  - apply rib_set_flags.
+  - destruct (rfind net (s_rib s)); cbn [s_nbr]; auto.
+  - destruct (rfind net (s_rib s)); cbn [s_nbr]; auto. destruct emit_; auto. apply push_flags.
+  - cbn [s_nbr]; auto.
+  - destruct (rib_sets_flags rs {| s_rib := s_rib s; s_llgr := set_llgr src (s_llgr s);
+                                   s_pv := s_pv s; s_nbr := s_nbr s |}) as [H1 H2].
+    cbn [s_nbr] in H1, H2. auto.
+  - unfold walk_at_head. destruct (n_chan (s_nbr s)) as [|[c|cs] rest]; cbn [with_nbr s_nbr n_beor n_eor].
+    + rewrite orb_false_r; auto.
+    + rewrite orb_false_r; auto.
+    + rewrite orb_true_r; auto.
+  - cbn [with_nbr s_nbr n_beor n_eor]. unfold eor_positions. cbn [n_beor n_eor app]. auto.
+  - cbn [with_nbr s_nbr n_beor n_eor]. unfold eor_positions. cbn [n_beor n_eor n_buf app]. auto.
+  - destruct (n_reg (s_nbr s)); cbn [with_nbr s_nbr n_beor n_eor]; auto.
+  - cbn [with_nbr s_nbr nbr0 n_beor n_eor]. unfold eor_positions. cbn [nbr0 n_beor n_eor app]. auto.
+  - cbn [s_nbr]; auto.
+Qed.
+
+End Eor.
+
+(* ------------------------------------------------------------ PendingTx: coalescing and flush order *)
+(* What one flush does to route k, in terms of what PendingTx holds for it: the last event
+   queued for the key wins (an announcement cancels a pending withdrawal and vice versa);
+   at the flush the buffered initial dump is applied first, then the withdrawals, then the
+   announcements. *)
+Theorem C01_pending_last_event_wins :
+  forall (E : Type) (p : ptx E) (k' : key) (e : E) (k : key),
+    pview E (ptx_reach E k' (fst k') e p) k = (if key_eqb k k' then Some (Some e) else pview E p k) /\
+    pview E (ptx_unreach E k' (fst k') p) k = (if key_eqb k k' then Some None else pview E p k) /\
+    (coherent E p -> coherent E (ptx_reach E k' (fst k') e p) /\ coherent E (ptx_unreach E k' (fst k') p)).
+Proof.
+  intros E p k' e k. split; [apply pview_reach|]. split; [apply pview_unreach|].
+  intros Hc. split; [apply coherent_reach | apply coherent_unreach]; auto.
+Qed.
+
+Theorem C01_flush_order :
+  forall (E : Type) (n : nbr E) (k : key),
+    coherent E (n_ptx n) ->
+    kfind k (flush_mirror E n) =
+    match pview E (n_ptx n) k with
+    | Some (Some e) => Some e                 (* a pending announcement: the route, as announced *)
+    | Some None => None                       (* a pending withdrawal: gone, also if the buffered dump holds it *)
+    | None => match kfind k (rev (n_buf n)) with
+              | Some e => Some e              (* in the buffered initial dump *)
+              | None => kfind k (n_mirror n)  (* untouched *)
+              end
+    end.
+Proof.
+  intros E n k Hc. rewrite flush_lookup by auto.
+  destruct (pview E (n_ptx n) k) as [[e|]|]; auto. apply mirror_reach_lookup.
 Qed.
